@@ -507,3 +507,116 @@ def r1g_integer_parameters(repo, rep, closure):
                       '%s uses the parameter %s as a %s, but the validator accepts integer-valued floats (e.g. 2.0) without converting them to int: range()/slicing then raises TypeError inside the search'
                       % (f.qualname, ', '.join(flds), what), f.loc(sub))
   rep.floor('range()/slice bounds fed by integer-valued parameters', n, 4)
+
+
+# ---------------------------------------------------------------------------------------------
+# R1h: subscript loads of plain-dict instance fields need the key to be present (KeyError is not a ValueError)
+# ---------------------------------------------------------------------------------------------
+def r1h_dict_field_keys(repo, rep, closure):
+  """For every class with a function in the closure: a field initialised to a plain dictionary ({} / dict()) — not a
+  defaultdict — may be subscripted for reading only where the key is known to be present: inside `if key in field`,
+  after a store/setdefault of that key in the same function, or with the key drawn from iterating the field."""
+  n_sites = 0
+  classes = {}
+  for f in closure.values():
+    if f.cls is not None:
+      classes[f.cls.qualname] = f.cls
+  for cq, cls in sorted(classes.items()):
+    plain = set()
+    for m in cls.all_functions():
+      sn = m.params[0] if m.params else None
+      for s_ in walk_no_nested(m.node):
+        if isinstance(s_, ast.Assign):
+          for t in s_.targets:
+            if isinstance(t, ast.Attribute) and isinstance(t.value, ast.Name) and t.value.id == sn:
+              v = s_.value
+              is_plain = (isinstance(v, ast.Dict) and not v.keys) or (isinstance(v, ast.Call) and norm(v.func) == 'dict' and not v.args and not v.keywords)
+              if is_plain and m.name in ('__init__', '__post_init__'):
+                plain.add(t.attr)
+              elif t.attr in plain and not is_plain:
+                plain.discard(t.attr)     # re-assigned to something else somewhere: not tracked
+    if not plain:
+      continue
+    for m in cls.all_functions():
+      if m.qualname not in closure:
+        continue
+      sn = m.params[0] if m.params else None
+      ctx = FuncCtx.of(m)
+      g, rd = ctx.g, ctx.rd
+      doms = g.dominators(cfgmod.no_exc)
+      for node in g.nodes:
+        for e in ctx.node_exprs(node):
+          for sub in walk_no_nested(e):
+            if not (isinstance(sub, ast.Subscript) and isinstance(sub.ctx, ast.Load)):
+              continue
+            base = rd.expand(node, sub.value, aliases=True)[0]
+            if not (isinstance(base, ast.Attribute) and isinstance(base.value, ast.Name) and base.value.id == sn and base.attr in plain):
+              continue
+            n_sites += 1
+            fld = '%s.%s' % (sn, base.attr)
+            key = norm(sub.slice)
+            ok, why = False, ''
+            for e2, taken, tn in cfgmod.dominating_conditions(g, node, doms):
+              forms = pathcond.asserted_forms(rd.expand(tn, e2, aliases=True)[0], taken)
+              if '%s in %s' % (key, fld) in forms or '%s in %s.keys()' % (key, fld) in forms:
+                ok, why = True, 'guarded by a membership test'
+            for d_ in doms.get(node, ()):
+              if d_.kind == 'stmt' and d_ is not node:
+                for s2 in walk_no_nested(d_.ast):
+                  if isinstance(s2, ast.Subscript) and isinstance(s2.ctx, ast.Store) and norm(s2.slice) == key \
+                      and norm(rd.expand(d_, s2.value, aliases=True)[0]) == fld:
+                    ok, why = True, 'the key is stored before'
+                  if isinstance(s2, ast.Call) and isinstance(s2.func, ast.Attribute) and s2.func.attr == 'setdefault' and s2.args \
+                      and norm(s2.args[0]) == key and norm(rd.expand(d_, s2.func.value, aliases=True)[0]) == fld:
+                    ok, why = True, 'setdefault of the key before'
+              if d_.kind == 'for' and norm(d_.ast.target).split(',')[0].strip('( ') == key:
+                it = norm(rd.expand(d_, d_.ast.iter, aliases=True)[0])
+                if it in (fld, '%s.keys()' % fld, '%s.items()' % fld, 'list(%s)' % fld, 'sorted(%s)' % fld):
+                  ok, why = True, 'the key iterates the field'
+            # comprehension over the field's own keys
+            cur, par = sub, getattr(sub, '_parent', None)
+            while par is not None and not isinstance(par, ast.stmt):
+              if isinstance(par, (ast.DictComp, ast.ListComp, ast.SetComp, ast.GeneratorExp)):
+                for gen in par.generators:
+                  if norm(gen.target) == key and norm(rd.expand(node, gen.iter, aliases=True)[0]) in (fld, '%s.keys()' % fld):
+                    ok, why = True, 'the key iterates the field'
+              cur, par = par, getattr(par, '_parent', None)
+            if not ok and isinstance(sub.slice, ast.Name) and sub.slice.id in m.params[1:]:
+              # the key is a parameter: decided at the call sites
+              pidx = m.params.index(sub.slice.id) - 1
+              sites = []
+              for cf in closure.values():
+                cctx = FuncCtx.of(cf)
+                for cnode in cctx.g.nodes:
+                  for ce in cctx.node_exprs(cnode):
+                    for call in au.calls_in(ce):
+                      if isinstance(call.func, ast.Attribute) and call.func.attr == m.name and len(call.args) > pidx:
+                        sites.append((cf, cctx, cnode, call))
+              allok = bool(sites)
+              for cf, cctx, cnode, call in sites:
+                arg = norm(call.args[pidx])
+                site_ok = False
+                recv_self = cf.cls is cls and isinstance(call.func.value, ast.Name) and cf.params and call.func.value.id == cf.params[0]
+                cur, par = call, getattr(call, '_parent', None)
+                while par is not None and not isinstance(par, ast.stmt):
+                  if isinstance(par, (ast.DictComp, ast.ListComp, ast.SetComp, ast.GeneratorExp)):
+                    for gen in par.generators:
+                      if norm(gen.target) == arg and recv_self and norm(gen.iter) in ('%s.%s' % (cf.params[0], base.attr), '%s.%s.keys()' % (cf.params[0], base.attr)):
+                        site_ok = True
+                  cur, par = par, getattr(par, '_parent', None)
+                for d_ in cctx.g.dominators(cfgmod.no_exc).get(cnode, ()):
+                  if d_.kind == 'for' and recv_self and norm(d_.ast.target) == arg and norm(d_.ast.iter) in ('%s.%s' % (cf.params[0], base.attr), '%s.%s.keys()' % (cf.params[0], base.attr)):
+                    site_ok = True
+                if not site_ok:
+                  allok = False
+                  rep.violation('R1h/dict-field-key', cf.qualname, norm(call)[:100],
+                                '%s calls %s, which reads the plain dictionary field %s under the key %s without anything establishing that the key is present: KeyError escapes '
+                                '(for the result heap: whenever no design was stored under that key)' % (cf.name, norm(call)[:60], base.attr, arg), cf.loc(call))
+              if allok:
+                rep.ok('R1h/dict-field-key', '%s: every call site passes a key drawn from the field' % m.name, loc=m.loc(sub))
+              continue
+            rep.check(ok, 'R1h/dict-field-key', '%s: read of %s[%s] only with the key present (%s)' % (m.name, fld, key, why), m.qualname,
+                      'read %s[%s]' % (fld, key),
+                      '%s reads %s[%s]; the field is a plain dictionary and nothing on the way establishes that the key is present: KeyError escapes (for the result heap: whenever no design was stored under that key)'
+                      % (m.name, fld, key), m.loc(sub))
+  rep.extra['plain_dict_field_reads'] = n_sites
